@@ -357,6 +357,27 @@ def c16(seed, tier, broken):
 def c15(seed, tier, broken):
     from harness import purity as P
 
+    found0 = []
+    try:
+        # deterministic probe of the recorded finding (known_findings.json: se2-plus-pi-rewrap-on-copy): a stored angle of exactly
+        # +pi is re-wrapped to -pi by a numerical-Jacobian query
+        import math
+        import numpy as np
+        from graphslam.pose.se2 import PoseSE2
+        from graphslam.vertex import Vertex
+        from graphslam.edge.base_edge import BaseEdge
+        from graphslam.edge.edge_odometry import EdgeOdometry
+
+        pp = PoseSE2([0.0, 0.0], np.nextafter(-np.pi, -np.inf))
+        if float(pp[2]) == math.pi:
+            vv0, vv1 = Vertex(0, PoseSE2([0.0, 0.0], 0.1)), Vertex(1, pp)
+            ee = EdgeOdometry([0, 1], np.eye(3), PoseSE2([1.0, 0.0], 0.2), [vv0, vv1])
+            b0 = np.array(vv1.pose).tobytes()
+            BaseEdge.calc_jacobians(ee)
+            if np.array(vv1.pose).tobytes() != b0:
+                found0.append(dict(match="purity:se2-angle-plus-pi:copy-rewraps", what="numerical-Jacobian query re-wrapped a stored angle of +pi to -pi", kind="purity", pose_before=[0.0, 0.0, math.pi], pose_after=np.array(vv1.pose).tolist()))
+    except Exception:  # noqa
+        pass
     big = tier == "thorough" or broken
     r = P.run(seed + 7919, 400 if big else (180 if tier == "escalated" else 30), 50 if big else 40)
     found = []
@@ -364,7 +385,7 @@ def c15(seed, tier, broken):
         d = dict(d)
         d["match"] = "purity:" + d["what"]
         found.append(d)
-    return dict(found=found, evaluations=r["cases"])
+    return dict(found=found0 + found, evaluations=r["cases"] + 1)
 
 
 def c04(seed, tier, broken):
